@@ -1946,7 +1946,7 @@ handle_raw_login(char *packet, int len, struct query *q, int fd, int userid)
 	}
 
 	/* User sends hash of seed + 1 */
-	login_calculate(myhash, 16, password, users[userid].seed + 1);
+	login_calculate(myhash, 16, password, (int) ((unsigned int) users[userid].seed + 1));
 	if (memcmp(packet, myhash, 16) == 0) {
 		/* Update query and time info for user */
 		users[userid].last_pkt = time(NULL);
@@ -1958,7 +1958,7 @@ handle_raw_login(char *packet, int len, struct query *q, int fd, int userid)
 
 		/* Correct hash, reply with hash of seed - 1 */
 		user_set_conn_type(userid, CONN_RAW_UDP);
-		login_calculate(myhash, 16, password, users[userid].seed - 1);
+		login_calculate(myhash, 16, password, (int) ((unsigned int) users[userid].seed - 1));
 		send_raw(fd, myhash, 16, userid, RAW_HDR_CMD_LOGIN, q);
 
 		users[userid].authenticated_raw = 1;
